@@ -36,4 +36,21 @@ theorem plain_model_types :
       fun n => plainB genEnv 12 (.named n)) = true := by
   decide
 
+def ppVals (fd : FieldDesc) : Val := if fd.goName = "Spread" then .str "node.labels.az" else .null
+
+/-- non-vacuity: a placement preference is a stable value of a plain model type -/
+example : Stable genEnv 5 (.named "PlacementPreferences")
+    (.map [("Spread", .str "node.labels.az"), ("Extensions", .null)]) := by
+  have hfs : findStruct genEnv.structs "PlacementPreferences" = some Gen.struct_PlacementPreferences := by decide
+  simp only [Stable, hfs]
+  refine ⟨ppVals, rfl, ?_⟩
+  intro fd hm hr
+  simp only [Gen.struct_PlacementPreferences, List.mem_cons, List.mem_nil_iff, or_false] at hm
+  rcases hm with h | h <;> subst h
+  · refine ⟨fun h => by simp at h, ?_, ?_⟩
+    · intro _ h
+      simp [omittedY, zeroOf, isZeroY, primZero, ppVals] at h
+    · intro _ _; simp [Stable, ppVals, isScalar]
+  · exact ⟨fun _ => rfl, fun h => by simp at h, fun h => by simp at h⟩
+
 end CV.C09
